@@ -21,6 +21,7 @@ import (
 	"github.com/Query-farm/vgi-rpc-go/vgirpc"
 	"github.com/apache/arrow-go/v18/arrow"
 	"github.com/apache/arrow-go/v18/arrow/array"
+	"github.com/apache/arrow-go/v18/arrow/ipc"
 	"github.com/apache/arrow-go/v18/arrow/memory"
 	"golang.org/x/crypto/chacha20poly1305"
 )
@@ -72,6 +73,8 @@ func init() {
 			return o && u
 		},
 	})
+	vgirpc.RegisterStateType(&c29Prod{})
+	vgirpc.RegisterStateType(&c29Exch{})
 	c29InstallRand()
 }
 
@@ -81,6 +84,7 @@ type c29Rand struct {
 	orig io.Reader
 	mu   sync.Mutex
 	next []byte
+	slow atomic.Int64 // ns to dawdle on every read (a slow entropy source; widens the open/drain window)
 }
 
 var c29Rd *c29Rand
@@ -91,6 +95,9 @@ func c29InstallRand() {
 }
 
 func (r *c29Rand) Read(p []byte) (int, error) {
+	if d := r.slow.Load(); d > 0 {
+		time.Sleep(time.Duration(d))
+	}
 	r.mu.Lock()
 	if r.next != nil && len(p) == len(r.next) {
 		copy(p, r.next)
@@ -125,6 +132,9 @@ type c29State struct {
 	closes atomic.Int32
 	w      *c29World
 
+	registered  atomic.Bool // OpenSession returned nil (concurrent searches)
+	openStarted time.Time
+	openedAt    time.Time
 	mode       int // 0 plain, 1 Close panics, 2 Close blocks until `goclose`
 	barrier    chan struct{}
 	released   atomic.Bool
@@ -198,6 +208,9 @@ type c29Thread struct {
 	tokSpec  string
 	isDelete bool
 	accept   bool
+	route    string // "" unary | init | cont | exch | cancel (stream routes)
+	ran      bool
+	noForce  bool
 	spin     bool
 	tokSrv   string // server id the presented token was sealed for ("" unknown)
 	tokSrvOK bool
@@ -361,9 +374,70 @@ func c29NewWorker(world *c29World, key []byte, serverID string, ttlTicks int) *c
 	return c29NewWorkerR(world, key, serverID, ttlTicks, 0)
 }
 
+// stream states (gob-registered): their callbacks run the scripted program of the harness thread whose
+// goroutine is serving the request
+type c29Prod struct{ Seq int64 }
+
+func (p *c29Prod) Produce(_ context.Context, out *vgirpc.OutputCollector, cc *vgirpc.CallContext) error {
+	c29RunByGid(cc)
+	p.Seq++
+	return out.EmitMap(map[string][]interface{}{"value": {p.Seq}})
+}
+
+func (p *c29Prod) OnCancel(_ context.Context, cc *vgirpc.CallContext) error {
+	c29RunByGid(cc)
+	return nil
+}
+
+type c29Exch struct{ Seq int64 }
+
+func (p *c29Exch) Exchange(_ context.Context, _ arrow.RecordBatch, out *vgirpc.OutputCollector, cc *vgirpc.CallContext) error {
+	c29RunByGid(cc)
+	p.Seq++
+	return out.EmitMap(map[string][]interface{}{"value": {p.Seq}})
+}
+
+var c29ValueSchema = arrow.NewSchema([]arrow.Field{{Name: "value", Type: arrow.PrimitiveTypes.Int64}}, nil)
+
+// c29RunByGid runs (once) the program of the thread whose request goroutine this is; internal
+// token-minting requests run on no thread's goroutine and do nothing.
+func c29RunByGid(cc *vgirpc.CallContext) {
+	w := c29Cur.Load()
+	if w == nil {
+		return
+	}
+	gid := c29Gid()
+	w.mu.Lock()
+	var t *c29Thread
+	for _, x := range w.threads {
+		if x.gid == gid && x.route != "" {
+			t = x
+		}
+	}
+	w.mu.Unlock()
+	if t == nil {
+		return
+	}
+	t.mu.Lock()
+	ran := t.ran
+	t.ran = true
+	t.mu.Unlock()
+	if !ran {
+		t.handler(w, cc)
+	}
+}
+
 func c29NewWorkerR(world *c29World, key []byte, serverID string, ttlTicks int, reaperTick time.Duration) *c29Worker {
 	s := vgirpc.NewServer()
 	s.SetServerID(serverID)
+	vgirpc.Producer(s, "sp", c29ValueSchema, func(_ context.Context, cc *vgirpc.CallContext, _ c29Params) (*vgirpc.StreamResult, error) {
+		c29RunByGid(cc)
+		return &vgirpc.StreamResult{OutputSchema: c29ValueSchema, State: &c29Prod{}}, nil
+	})
+	vgirpc.Exchange(s, "se", c29ValueSchema, c29ValueSchema, func(_ context.Context, cc *vgirpc.CallContext, _ c29Params) (*vgirpc.StreamResult, error) {
+		c29RunByGid(cc)
+		return &vgirpc.StreamResult{OutputSchema: c29ValueSchema, State: &c29Exch{}}, nil
+	})
 	vgirpc.Unary(s, "m", func(_ context.Context, ctx *vgirpc.CallContext, p c29Params) (int64, error) {
 		w := c29Cur.Load()
 		if w == nil {
@@ -382,6 +456,7 @@ func c29NewWorkerR(world *c29World, key []byte, serverID string, ttlTicks int, r
 	if err != nil {
 		panic(err)
 	}
+	h.SetProducerBatchLimit(1)
 	h.EnableSticky(time.Duration(ttlTicks) * c29Tick)
 	h.SetAuthenticate(func(r *http.Request) (*vgirpc.AuthContext, error) {
 		a, ok := c29ParseIdent(r.Header.Get("X-Ident"))
@@ -396,6 +471,74 @@ func c29NewWorkerR(world *c29World, key []byte, serverID string, ttlTicks int, r
 		h.VerifC29StopReaper()
 	}
 	return &c29Worker{h: h, key: key, serverID: serverID}
+}
+
+// c29StreamRequest builds a request for a stream route. Continuation / exchange / cancel turns need
+// state tokens: they are minted by an internal /init on the same worker (same caller, no session
+// header, not on a thread's goroutine, so no scripted program runs).
+func c29StreamRequest(wk *c29Worker, route, ident string) *http.Request {
+	mkInit := func(method string) *http.Request {
+		mem := memory.NewGoAllocator()
+		schema := arrow.NewSchema([]arrow.Field{{Name: "n", Type: arrow.PrimitiveTypes.Int64}}, nil)
+		bld := array.NewInt64Builder(mem)
+		bld.Append(1)
+		col := bld.NewArray()
+		bld.Release()
+		batch := array.NewRecordBatch(schema, []arrow.Array{col}, 1)
+		col.Release()
+		defer batch.Release()
+		var buf bytes.Buffer
+		if err := vgirpc.WriteRequest(&buf, method, batch, ""); err != nil {
+			panic(err)
+		}
+		r := httptest.NewRequest("POST", "/"+method+"/init", bytes.NewReader(buf.Bytes()))
+		r.Header.Set("Content-Type", "application/vnd.apache.arrow.stream")
+		r.Header.Set("X-Ident", ident)
+		return r
+	}
+	if route == "init" {
+		return mkInit("sp")
+	}
+	method := "sp"
+	if route == "exch" {
+		method = "se"
+	}
+	rec := httptest.NewRecorder()
+	wk.h.ServeHTTP(rec, mkInit(method))
+	state, call := vgirpc.FindStreamTokens(rec.Body.Bytes())
+	keys := []string{vgirpc.MetaStreamState, vgirpc.MetaCallState}
+	vals := []string{string(state), string(call)}
+	if route == "cancel" {
+		keys = append(keys, vgirpc.MetaCancel)
+		vals = append(vals, "1")
+	}
+	var schema *arrow.Schema
+	var cols []arrow.Array
+	rows := int64(0)
+	if route == "exch" {
+		schema = c29ValueSchema
+		bld := array.NewInt64Builder(memory.NewGoAllocator())
+		bld.Append(5)
+		cols = []arrow.Array{bld.NewArray()}
+		bld.Release()
+		rows = 1
+	} else {
+		schema = arrow.NewSchema(nil, nil)
+	}
+	batch := array.NewRecordBatchWithMetadata(schema, cols, rows, arrow.NewMetadata(keys, vals))
+	for _, c := range cols {
+		c.Release()
+	}
+	defer batch.Release()
+	var buf bytes.Buffer
+	iw := ipc.NewWriter(&buf, ipc.WithSchema(schema))
+	if err := iw.Write(batch); err != nil {
+		panic(err)
+	}
+	_ = iw.Close()
+	r := httptest.NewRequest("POST", "/"+method+"/exchange", bytes.NewReader(buf.Bytes()))
+	r.Header.Set("Content-Type", "application/vnd.apache.arrow.stream")
+	return r
 }
 
 var c29ReqCache sync.Map
@@ -652,6 +795,8 @@ func (t *c29Thread) start(w *c29World) {
 	var req *http.Request
 	if t.isDelete {
 		req = httptest.NewRequest("DELETE", "/__session__", nil)
+	} else if t.route != "" {
+		req = c29StreamRequest(wk, t.route, t.ident)
 	} else {
 		req = httptest.NewRequest("POST", "/m", bytes.NewReader(c29Request(t.id)))
 		req.Header.Set("Content-Type", "application/vnd.apache.arrow.stream")
@@ -778,6 +923,17 @@ func (t *c29Thread) handler(w *c29World, ctx *vgirpc.CallContext) {
 			t.mu.Lock()
 			t.obs = append(t.obs, o)
 			t.mu.Unlock()
+		case strings.HasPrefix(op, "O"): // concurrent searches only: open with a random session id
+			st := &c29State{key: fmt.Sprintf("%d/stress-%d", t.worker, t.id), w: w, opener: t.ident, barrier: make(chan struct{})}
+			w.mu.Lock()
+			w.all = append(w.all, st)
+			w.mu.Unlock()
+			t0 := time.Now()
+			err := ctx.OpenSession(st, 3*c29Tick)
+			if err == nil {
+				st.openedAt, st.openStarted = time.Now(), t0
+				st.registered.Store(true)
+			}
 		case strings.HasPrefix(op, "o"):
 			ttlS, sidS, _ := strings.Cut(op[1:], "/")
 			sidS, modeS, _ := strings.Cut(sidS, ":")
@@ -1269,7 +1425,7 @@ func c29Line(c *Case, w *c29World, l string, f []string) string {
 		w.workers = append(w.workers, c29NewWorker(w, key, string(srv), ttl))
 		c.Stat("worker")
 		return "ok"
-	case (f[0] == "call" && len(f) == 7) || (f[0] == "delete" && len(f) == 5):
+	case (f[0] == "call" && len(f) == 7) || (f[0] == "delete" && len(f) == 5) || (f[0] == "xcall" && len(f) == 7):
 		id, err := strconv.Atoi(f[1])
 		wi, wok := widx(f[2])
 		_, iok := c29ParseIdent(f[3])
@@ -1282,12 +1438,18 @@ func c29Line(c *Case, w *c29World, l string, f []string) string {
 		if f[0] == "call" && f[5] != "0" && f[5] != "1" {
 			return "bad-op"
 		}
+		if f[0] == "xcall" && f[5] != "init" && f[5] != "cont" && f[5] != "exch" && f[5] != "cancel" {
+			return "bad-op"
+		}
 		if _, dup := w.byID[id]; dup || !wok || id >= 1000000 {
 			return w.report("noop")
 		}
 		t := &c29Thread{id: id, worker: wi, ident: f[3], tokSpec: f[4], isDelete: f[0] == "delete",
 			status: "running", release: make(chan struct{})}
-		if f[0] == "call" {
+		if f[0] == "xcall" {
+			t.route = f[5]
+		}
+		if f[0] == "call" || f[0] == "xcall" {
 			if f[6] != "-" {
 				for _, op := range strings.Split(f[6], ",") {
 					okOp := op == "c" || op == "s" || op == "b" || op == "p"
@@ -1305,7 +1467,7 @@ func c29Line(c *Case, w *c29World, l string, f []string) string {
 				}
 			}
 			t.accept = f[5] == "1"
-			c.Stat("call")
+			c.Stat(f[0] + t.route)
 		} else {
 			c.Stat("delete")
 		}
